@@ -3,11 +3,7 @@
 // model crate (the real one reaches CPUID inline assembly).
 #![allow(dead_code)]
 
-/// SCENARIO validate_path_sym: buf:[u8;7] n:usize
-#[kani::proof]
-#[kani::unwind(10)]
-fn validate_path_sym() {
-    const N: usize = 7;
+fn check_path<const N: usize>() {
     let buf: [u8; N] = kani::any();
     let n: usize = kani::any();
     kani::assume(n <= N);
@@ -38,6 +34,21 @@ fn validate_path_sym() {
         j += 1;
     }
     assert!(r.is_err() == bad, "C19: validate_path accepts/rejects a path against the NUL / absolute / `..`-segment rule");
-    kani::cover!(r.is_ok() && n == 7, "accepted 7-byte path");
+    kani::cover!(r.is_ok() && n == N, "accepted path of the maximum length");
     kani::cover!(r.is_err(), "rejected path");
+}
+
+/// SCENARIO validate_path_sym: buf:[u8;7] n:usize
+#[kani::proof]
+#[kani::unwind(10)]
+fn validate_path_sym() {
+    check_path::<7>()
+}
+
+/// thorough tier: paths of up to 10 bytes (three two-byte segments with separators and more)
+/// SCENARIO validate_path_sym10: buf:[u8;10] n:usize
+#[kani::proof]
+#[kani::unwind(13)]
+fn validate_path_sym10() {
+    check_path::<10>()
 }
